@@ -82,6 +82,9 @@ DeRun(doc, P, i, skip) ==
                  ELSE <<<<"Text", d.txt>>>> \o DeRun(doc, P, d.next, skip)
 
 DeEvents(doc, skip) == DeRun(doc, Payloads(doc), 1, skip)
+\* what an EntityResolver is asked to capture: the content of every DOCTYPE the reader delivers, in order (the
+\* deserializer may stop before it has seen all of them: what a run captures is a prefix of this list)
+DocTypes(doc) == LET P == SelectSeq(Payloads(doc), LAMBDA e : e.k = "DocType") IN [i \in 1..Len(P) |-> Slice(doc, P[i].lo, P[i].hi)]
 
 NoTwoTexts(D) == \A i \in 1..(Len(D) - 1) : ~(D[i][1] = "Text" /\ D[i + 1][1] = "Text")
 \* projection for comparisons across rewrites: names and attribute bytes, text content
